@@ -194,6 +194,10 @@ class JsonDocument(HierDictDocument):
             # the client named a charset that does not exist
             raise Fault('Client.JsonDecodeError', repr(e))
 
+        except RecursionError as e:
+            # the document is nested deeper than the parser can follow
+            raise Fault('Client.JsonDecodeError', repr(e))
+
     def create_out_string(self, ctx, out_string_encoding='utf8'):
         """Sets ``ctx.out_string`` using ``ctx.out_document``."""
         if out_string_encoding is None:
